@@ -123,6 +123,13 @@ def run(pid, tier):
                 sc["mode"], sc["edits"] = "changed", [p + "/src.txt" for p in paths]
             sc["label"] += "-" + how
             scenarios.append(sc)
+        # very wide groups (beyond any internal batch or cap of a few dozen), and a group under a small descriptor limit
+        for w in ([150] if tier == "quick" else [129, 150, 257, 400]):
+            scenarios.append(runlib.wide_scenario(w, chk.seed, barrier=True))
+        sc = runlib.barrier_scenario(30, "middle", chk.seed)
+        sc["prlimit"] = ["--nofile=256:256"]
+        sc["label"] += "-nofile256"
+        scenarios.append(sc)
         # members sharing one executable file (common command directory)
         for s, pos in ((2, "first"), (4, "middle"), (9, "last")) + (((17, "middle"), (33, "first")) if tier == "thorough" else ()):
             scenarios.append(runlib.barrier_scenario(s, pos, chk.seed, shared=True))
@@ -133,6 +140,15 @@ def run(pid, tier):
             # C06 quantifies over delays of the run's own bookkeeping and over children that outlive a failure
             variant = (i % 3) if pid == "C06" else (1 if i % 7 == 3 else 0)
             scenarios.append(runlib.scenario_from_behaviour(b, i, rng, variant))
+        if pid == "C05":
+            # very wide groups: the run's grouping must still be analyze's grouping, every member started once
+            scenarios.append(runlib.wide_scenario(150, chk.seed, mode="all"))
+            scenarios.append(runlib.wide_scenario(131, chk.seed + 1, mode="changed"))
+            if tier == "thorough":
+                scenarios.append(runlib.wide_scenario(300, chk.seed + 2, mode="all"))
+                scenarios.append(runlib.wide_scenario(129, chk.seed + 3, fail_at=3, mode="all"))
+        if pid == "C06":
+            scenarios.append(runlib.wide_scenario(140, chk.seed, fail_at=5, mode="all"))
         if pid == "C06":
             # every member of a group has exited (one of them non-zero) before the run joins any of them
             for k, (n, ff) in enumerate([(1, True), (2, True), (3, False), (1, False)] + ([(5, True), (8, False), (2, False), (4, True)] if tier == "thorough" else [])):
